@@ -180,14 +180,13 @@ def effect_rule(model, res):
         if not good:
             res.find("R-EFFECT", f"DeribitOptionMarket.{op}", "write_func gate missing or not outermost", f.loc(),
                      f"{op} decorators are {f.decorators}; the hourly market must reject trades on bars where it is closed")
-    # the gate itself: write_func rejects when not is_open, and is_open is set from the data index
-    wf = model.func("broker.market.write_func")
-    txt = ast.unparse(wf.node)
-    gate_ok = "if not instance.is_open" in txt and "raise DemeterError" in txt
-    res.ob("R-EFFECT", "write_func rejects when the market is not open", wf.loc(), ok=gate_ok)
-    if not gate_ok:
-        res.find("R-EFFECT", "broker.market.write_func", "closed-market gate changed", wf.loc(),
-                 "write_func no longer raises when `instance.is_open` is false")
+    # the gate itself: write_func rejects when not is_open (name-insensitive shape)
+    from ..rules.common import write_func_shape
+    sh = write_func_shape(model)
+    res.ob("R-EFFECT", "write_func rejects when the market is not open", sh["loc"], ok=sh["gate"])
+    if not sh["gate"]:
+        res.find("R-EFFECT", "broker.market.write_func", "closed-market gate changed", sh["loc"],
+                 "write_func no longer raises before the call when the instance's `is_open` is false")
 
 
 def run(model, tier="quick"):
